@@ -158,9 +158,9 @@ func checkOverlap(scen string, in In) verdict {
 	case <-g.reached:
 	case oA = <-doneA: // A finished without ever reading up to the gate
 		gotA = true
-	case <-time.After(20 * time.Second):
+	case <-time.After(180 * time.Second):
 		close(g.release)
-		return verdict{class: "unsound", v: mc.V(scen, "reads-terminate", in, "reader A reaches the gate of its input or finishes", "neither within 20 s", "overlapping-reads")}
+		return verdict{class: "unsound", v: mc.V(scen, "reads-terminate", in, "reader A reaches the gate of its input or finishes", "neither within 180 s", "overlapping-reads")}
 	}
 	oB = readAll(ov.Via, bytes.NewReader(ov.B.Doc), ringB)
 	if ov.BTwice {
@@ -170,8 +170,8 @@ func checkOverlap(scen string, in In) verdict {
 		close(g.release)
 		select {
 		case oA = <-doneA:
-		case <-time.After(20 * time.Second):
-			return verdict{class: "unsound", v: mc.V(scen, "reads-terminate", in, "reader A finishes after its input ended", "not within 20 s", "overlapping-reads")}
+		case <-time.After(180 * time.Second):
+			return verdict{class: "unsound", v: mc.V(scen, "reads-terminate", in, "reader A finishes after its input ended", "not within 180 s", "overlapping-reads")}
 		}
 	}
 	judge := func(who string, rd IReader, ring *openpgp.EntityList, o obs, mustFail bool) *mc.Violation {
